@@ -871,8 +871,14 @@ class MultiFit(FitBase):
             warnings.warn("Could not assign all parameter latex names to single fits. Leftover: {}".format(_keys))
 
     def disable_error(self, err_id):
+        _found = False
         for _fit in self._fits:
-            _fit.disable_error(err_id=err_id)
+            # a source may exist in (be shared by) only some of the fits
+            if err_id in _fit.data_container._error_dicts or err_id in _fit._param_model._error_dicts:
+                _fit.disable_error(err_id=err_id)
+                _found = True
+        if not _found:
+            raise ValueError("No error with name '{}'!".format(err_id))
 
     def fix_parameter(self, name, value=None):
         self._fitter.fix_parameter(name=name, value=value)
